@@ -1320,6 +1320,36 @@ func judgeFill(r *Reporter, rule, key string, f *FuncCFG, c *ast.CallExpr, pt Po
 		}
 		return
 	}
+	// (3) a plain slice wrapped for the copy (`reflect.ValueOf(s)`): every path to the copy either knows
+	// len(s) <= destination.Len() or has cut s down to it (`s = s[:destination.Len()]`)
+	if wc, isCall := ast.Unparen(src).(*ast.CallExpr); isCall && strings.HasSuffix(rawKey(wc.Fun), "reflect.ValueOf") && len(wc.Args) == 1 {
+		if so := objOfIdent(f.Info, wc.Args[0]); so != nil {
+			sName := rawKey(wc.Args[0])
+			fits := map[Edge]bool{}
+			for _, e := range f.RelEdges(func(rel Rel) bool {
+				return rel.Op == "<=" && rel.L == "len("+sName+")" && rel.R == rawD+".Len()"
+			}) {
+				fits[e] = true
+			}
+			cuts := func(n ast.Node) bool {
+				as, ok := n.(*ast.AssignStmt)
+				if !ok || len(as.Lhs) != 1 || len(as.Rhs) != 1 || objOfIdent(f.Info, as.Lhs[0]) != so {
+					return false
+				}
+				sl, ok := ast.Unparen(as.Rhs[0]).(*ast.SliceExpr)
+				return ok && objOfIdent(f.Info, sl.X) == so && sl.Low == nil && sl.High != nil && rawKey(sl.High) == rawD+".Len()"
+			}
+			if len(fits) > 0 || len(f.Find(cuts)) > 0 {
+				if w, found := f.PathFromEntryAvoiding(pt, cuts, func(e Edge) bool { return fits[e] }); !found {
+					r.Pass(rule, key, f.P.posStr(c.Pos()), "the wrapped slice is known not to be longer than the destination (compared or cut down) on every path")
+					return
+				} else {
+					r.Fail(rule, key, f.P.posStr(c.Pos()), "the copy is reachable with a source that was neither compared with nor cut down to the destination's length", w...)
+					return
+				}
+			}
+		}
+	}
 	r.Fail(rule, key, f.P.posStr(c.Pos()), fmt.Sprintf("the source (%s) is neither the slice made from the destination array (%s) nor compared with its length: an input that decodes to more elements than the array has panics with an index out of range instead of returning an error", sk, dk))
 }
 
@@ -3350,11 +3380,12 @@ func checkByteArrayKeySource(r *Reporter, p *Prog) {
 						return true
 					})
 				}
-				// only the pointer-to-array branch: the site is dominated by sliceFromArray
-				if _, miss := df.PathFromEntryAvoiding(pt, func(m ast.Node) bool {
-					cl, ok := m.(*ast.CallExpr)
-					return ok && calleeShort(info, cl) == "sliceFromArray"
-				}, nil); miss {
+				// only the pointer-to-array branch: the site lies behind an edge on which the pointed-to
+				// type is known to be an array (`elemType.Kind() == reflect.Array`)
+				arrEdges := df.RelEdges(func(rel Rel) bool {
+					return rel.Op == "==" && ((strings.HasSuffix(rel.L, ".Kind()") && rel.R == "reflect.Array") || (strings.HasSuffix(rel.R, ".Kind()") && rel.L == "reflect.Array"))
+				})
+				if _, only := df.OnlyThroughEdges(pt, arrEdges); !only || len(arrEdges) == 0 {
 					return true
 				}
 				collect(ix.Index, pt, 3)
